@@ -126,6 +126,149 @@ def main():
     # that function's labelled clauses? No: Verus reports each failed clause separately; an unrelated failure
     # elsewhere in the function does not invalidate discharged clauses.
 
+    def run_bounded(violations, known):
+        """bounded stand-ins of the property (independent of the verifier): appends to `violations`; returns (early exit code or None, runs, known findings hit)"""
+        bounded_runs, known_bounded = [], []
+        # ---- bounded stand-ins (clauses no contract within reach decides): CLI scenarios on the real binary.
+        # Labelled bounded in the evidence and never counted as discharged obligations.
+        if not violations:
+            import replay
+            bl = []
+            corpus_specs, inject_specs, range_specs, ignore_specs = [], [], [], []
+            for wsc in spec.get("bounded", []):
+                if wsc.get("kind") == "lib":
+                    bl.extend(getattr(registry, wsc["witnesses"]))
+                elif wsc.get("kind") == "corpus":
+                    corpus_specs.append(wsc)
+                elif wsc.get("kind") == "inject":
+                    inject_specs.append(wsc)
+                elif wsc.get("kind") == "range":
+                    range_specs.append(wsc)
+                elif wsc.get("kind") == "ignore":
+                    ignore_specs.append(wsc)
+                else:
+                    bl.append(wsc)
+            if corpus_specs or inject_specs or range_specs or ignore_specs or any(x.get("kind") != "cli" for x in bl):
+                okb, errb = replay.build()      # the replay crate is rebuilt from /repo's working tree
+                if not okb:
+                    print(f"UNDECIDED property={prop}: the replay crate does not build against the current tree: {errb[-300:]}")
+                    return 2, bounded_runs, known_bounded
+            # the repository's own test inputs under other configurations and column widths than the snapshots pin (bounded, labelled)
+            for cs in corpus_specs:
+                cfgs = getattr(registry, "CORPUS_CONFIGS_" + cs["configs"]) if cs.get("configs") else (registry.CORPUS_CONFIGS_THOROUGH if tier == "thorough" else registry.CORPUS_CONFIGS_QUICK)
+                widths = registry.CORPUS_WIDTHS_THOROUGH if tier == "thorough" else registry.CORPUS_WIDTHS_QUICK
+                try:
+                    fails, stats = replay.run_corpus(cfgs, widths)
+                except Exception as e:
+                    print(f"UNDECIDED property={prop}: corpus sweep did not run: {e}")
+                    return 2, bounded_runs, known_bounded
+                mine = [f for f in fails if f["kind"] in cs["kinds"]]
+                bounded_runs.append(dict(scenario=f"corpus sweep: {stats['files']} test inputs of the repository x {stats['configs']} configurations x column widths {widths} = {stats['runs']} runs; oracles {cs['kinds']}",
+                                         violated=bool(mine), detail=f"{len(mine)} failing runs"))
+                seen_c = set()
+                for f in mine:
+                    wid = "corpus:" + f["file"] + ":" + f["kind"] + ":" + hashlib.sha256(f["detail"].encode()).hexdigest()[:8]
+                    if wid in seen_c: continue
+                    seen_c.add(wid)
+                    kf = next((k for k in known if k["prop"] == prop and k["label"] == "bounded:" + wid), None)
+                    if kf:
+                        print(f"KNOWN-FINDING: property={prop} bounded {wid} — {kf['text']}")
+                        known_bounded.append(kf)
+                        continue
+                    wsc = dict(kind="corpusfile", file=(None if f["kind"] == "timeout" else f["file"]), opts=f["opts"], column_width=f["column_width"], fkind=f["kind"])
+                    violations.append(dict(unit="cli", fs="-", label="bounded:" + wid, text="bounded corpus sweep (stand-in for formatters outside every contract)",
+                                           diag=dict(message=f["detail"], fn="stylua_lib::format_code", rendered=json.dumps(f)[:3000]), res=None, scenario=wsc, scenario_result=f))
+            # C09 range sweep: every statement of the repository's test inputs as the formatting range
+            for cs in range_specs:
+                try:
+                    fails, stats = replay.run_corpus_range(registry.RANGE_CONFIGS_THOROUGH if tier == "thorough" else registry.RANGE_CONFIGS_QUICK, thorough=(tier == "thorough"))
+                except Exception as e:
+                    print(f"UNDECIDED property={prop}: range sweep did not run: {e}")
+                    return 2, bounded_runs, known_bounded
+                mine = [f for f in fails if f["kind"] in cs["kinds"]]
+                bounded_runs.append(dict(scenario=f"range sweep: every statement ({'nested ones included' if tier == 'thorough' else 'top-level, nested ones in files up to 6000 bytes'}) of {stats['files']} test inputs as the formatting range x {stats['configs']} configurations = {stats['runs']} runs; "
+                                                  "the text in front of the statement's leading trivia and behind its last line is reproduced, blank lines in front of it are kept (capped at one)",
+                                         violated=bool(mine), detail=f"{len(mine)} failing runs"))
+                seen_c = set()
+                for f in mine:
+                    wid = "range:" + f["file"] + ":" + str(f["range"][0]) + "-" + str(f["range"][1]) + ":" + f["kind"]
+                    if wid in seen_c: continue
+                    seen_c.add(wid)
+                    kf = next((k for k in known if k["prop"] == prop and k["label"] == "bounded:" + wid), None)
+                    if kf:
+                        print(f"KNOWN-FINDING: property={prop} bounded {wid} — {kf['text']}")
+                        known_bounded.append(kf); continue
+                    if len(seen_c) > 8: continue      # one replay file per distinct statement, at most eight
+                    wsc = dict(kind="rangefile", file=f["file"], opts=f["opts"], range=f["range"])
+                    violations.append(dict(unit="cli", fs="-", label="bounded:" + wid, text="bounded range sweep (stand-in: in-range / out-of-range behaviour of the statement formatters outside every contract)",
+                                           diag=dict(message=f["detail"], fn="stylua_lib::format_code", rendered=json.dumps(f)[:3000]), res=None, scenario=wsc, scenario_result=f))
+            # C08 ignore sweep: a directive above every statement, a region around every pair of neighbouring top-level statements
+            for cs in ignore_specs:
+                try:
+                    fails, stats = replay.run_corpus_ignore(registry.IGNORE_CONFIGS, thorough=(tier == "thorough"))
+                except Exception as e:
+                    print(f"UNDECIDED property={prop}: ignore sweep did not run: {e}")
+                    return 2, bounded_runs, known_bounded
+                mine = [f for f in fails if f["kind"] in cs["kinds"]]
+                bounded_runs.append(dict(scenario=f"ignore sweep: `-- stylua: ignore` above every statement and an ignore start/end region around every pair of neighbouring top-level statements of {stats['files']} test inputs x {stats['configs']} configurations = {stats['runs']} runs; the ignored source text appears verbatim in the output",
+                                         violated=bool(mine), detail=f"{len(mine)} failing runs"))
+                seen_c = set()
+                for f in mine:
+                    wid = "ignore:" + f["file"] + ":" + f["case"] + ":" + f["kind"]
+                    if wid in seen_c: continue
+                    seen_c.add(wid)
+                    kf = next((k for k in known if k["prop"] == prop and k["label"] == "bounded:" + wid), None)
+                    if kf:
+                        print(f"KNOWN-FINDING: property={prop} bounded {wid} — {kf['text']}")
+                        known_bounded.append(kf); continue
+                    if len(seen_c) > 8: continue
+                    wsc = dict(kind="ignorefile", file=f["file"], opts=f["opts"], case=f["case"])
+                    violations.append(dict(unit="cli", fs="-", label="bounded:" + wid, text="bounded ignore sweep (stand-in: statement formatters outside every contract must leave an ignored statement alone)",
+                                           diag=dict(message=f["detail"], fn="stylua_lib::format_code", rendered=json.dumps(f)[:3000]), res=None, scenario=wsc, scenario_result=f))
+            # comment-injection sweep (vx/inject.py): one comment at every token boundary of a fixed list of small programs
+            for cs in inject_specs:
+                import inject
+                try:
+                    fails, stats = inject.run(*((inject.CONFIGS_THOROUGH, inject.WIDTHS_THOROUGH) if tier == "thorough" else (None, None)))
+                except Exception as e:
+                    print(f"UNDECIDED property={prop}: comment-injection sweep did not run: {e}")
+                    return 2, bounded_runs, known_bounded
+                kinj = inject.load_known()
+                mine = [f for f in fails if f["kind"] in cs["kinds"]]
+                nk = 0
+                for f in mine:
+                    wid = "inject:" + f["key"]
+                    if f["key"] in kinj:
+                        nk += 1
+                        print(f"KNOWN-FINDING: property={prop} injected comment {f['key']} ({f['kind']}): {json.dumps(f['src'])} — {kinj[f['key']][1][:160]}")
+                        known_bounded.append(dict(prop=prop, label="bounded:" + wid, fn="*", text=kinj[f["key"]][1][:200]))
+                        continue
+                    oracle = {"parse": "parse", "tree": "tree", "comments": "comments", "literals": "literals"}.get(f["kind"], "parse")
+                    wsc = dict(src=f["src"], oracle=oracle, opts=dict(f["opts"], syntax=f["syntax"], column_width=str(f["column_width"])))
+                    violations.append(dict(unit="cli", fs="-", label="bounded:" + wid, text="bounded comment-injection sweep (stand-in for formatters outside every contract)",
+                                           diag=dict(message=f["detail"], fn="stylua_lib::format_code", rendered=json.dumps(f)[:3000]), res=None, scenario=wsc, scenario_result=f))
+                bounded_runs.append(dict(scenario=f"comment-injection sweep: {stats['inputs']} inputs (one comment at every token boundary of {len(inject.SNIPPETS)} small programs, 3 comment forms) x {stats['configs']} configurations x column widths {stats['widths']} = {stats['runs']} runs; oracles {cs['kinds']}",
+                                         violated=len(mine) > nk, detail=f"{len(mine)} failing (input, oracle) pairs, {nk} of them listed in known_injections.txt"))
+            for wsc in bl:
+                try:
+                    v, j = replay.run_witness(wsc)
+                except Exception as e:
+                    v, j = False, dict(error=str(e))
+                wid = wsc.get("scenario") or ("lib:" + hashlib.sha256(json.dumps(wsc, sort_keys=True).encode()).hexdigest()[:10])
+                det = j.get("detail") or j.get("error") or ""
+                if not det and j.get("runs"): det = j["runs"][-1].get("detail", "")
+                bounded_runs.append(dict(scenario=wsc.get("scenario") or ("library witness " + wid + ": " + (wsc.get("src") or "")[:60]), violated=v, detail=det))
+                if v:
+                    kf = next((k for k in known if k["prop"] == prop and k["label"] == "bounded:" + wid), None)
+                    if kf:
+                        print(f"KNOWN-FINDING: property={prop} bounded witness {wid} — {kf['text']}")
+                        known_bounded.append(kf)
+                        continue
+                    violations.append(dict(unit="cli", fs="-", label="bounded:" + wid, text="bounded CLI scenario (stand-in for clauses outside every contract)",
+                                           diag=dict(message=j.get("detail"), fn="stylua (binary)", rendered=json.dumps(j)[:3000]), res=None, scenario=wsc, scenario_result=j))
+        spec["_bounded_runs"] = bounded_runs
+        return None, bounded_runs, known_bounded
+
     if undecided_msgs:
         print(f"UNDECIDED property={prop}: the verifier could not be run to a verdict on the current tree:")
         for m in undecided_msgs[:20]:
@@ -138,6 +281,24 @@ def main():
                        note="undecided: " + "; ".join(undecided_msgs[:3]) + ("; a witness program failed on the real library (bounded stand-in)" if hit else ""), units=units)
         if hit:
             print(f"VIOLATION property={prop} replay={hit}")
+            return 1
+        # no registered witness fails: the bounded stand-ins do not need the verifier either
+        known_u, _f = load_known()
+        vio_u = []
+        try:
+            rcb, _br, _kb = run_bounded(vio_u, known_u)
+        except Exception as e:
+            print("  (bounded stand-ins did not run:", e, ")"); rcb = 2
+        if vio_u:
+            done = set()
+            for f in vio_u:
+                key = (f["unit"], f["label"])
+                if key in done: continue
+                done.add(key)
+                path = replay.make_replay(prop, f, registry)
+                print(f"VIOLATION property={prop} replay={path}" + ("" if replay.last_found_input else " no-failing-input-found"))
+            write_evidence(prop, tier, seed, spec, results, kani_results, obligations, discharged, samples, vio_u, t0,
+                           note="undecided: " + "; ".join(undecided_msgs[:3]) + "; a bounded stand-in failed on the real code", units=units)
             return 1
         return 2
 
@@ -184,146 +345,9 @@ def main():
         for v in kr.get("violations", []):
             violations.append(dict(unit="kani:" + kr["name"], fs="-", label=v["harness"], text=v["text"], diag=dict(message=v["message"], fn=v["harness"], rendered=v.get("trace", "")), res=None, kani=v))
 
-    # ---- bounded stand-ins (clauses no contract within reach decides): CLI scenarios on the real binary.
-    # Labelled bounded in the evidence and never counted as discharged obligations.
-    bounded_runs = []
-    known_bounded = []
-    if not violations:
-        import replay
-        bl = []
-        corpus_specs, inject_specs, range_specs, ignore_specs = [], [], [], []
-        for wsc in spec.get("bounded", []):
-            if wsc.get("kind") == "lib":
-                bl.extend(getattr(registry, wsc["witnesses"]))
-            elif wsc.get("kind") == "corpus":
-                corpus_specs.append(wsc)
-            elif wsc.get("kind") == "inject":
-                inject_specs.append(wsc)
-            elif wsc.get("kind") == "range":
-                range_specs.append(wsc)
-            elif wsc.get("kind") == "ignore":
-                ignore_specs.append(wsc)
-            else:
-                bl.append(wsc)
-        if corpus_specs or inject_specs or range_specs or ignore_specs or any(x.get("kind") != "cli" for x in bl):
-            okb, errb = replay.build()      # the replay crate is rebuilt from /repo's working tree
-            if not okb:
-                print(f"UNDECIDED property={prop}: the replay crate does not build against the current tree: {errb[-300:]}")
-                return 2
-        # the repository's own test inputs under other configurations and column widths than the snapshots pin (bounded, labelled)
-        for cs in corpus_specs:
-            cfgs = getattr(registry, "CORPUS_CONFIGS_" + cs["configs"]) if cs.get("configs") else (registry.CORPUS_CONFIGS_THOROUGH if tier == "thorough" else registry.CORPUS_CONFIGS_QUICK)
-            widths = registry.CORPUS_WIDTHS_THOROUGH if tier == "thorough" else registry.CORPUS_WIDTHS_QUICK
-            try:
-                fails, stats = replay.run_corpus(cfgs, widths)
-            except Exception as e:
-                print(f"UNDECIDED property={prop}: corpus sweep did not run: {e}")
-                return 2
-            mine = [f for f in fails if f["kind"] in cs["kinds"]]
-            bounded_runs.append(dict(scenario=f"corpus sweep: {stats['files']} test inputs of the repository x {stats['configs']} configurations x column widths {widths} = {stats['runs']} runs; oracles {cs['kinds']}",
-                                     violated=bool(mine), detail=f"{len(mine)} failing runs"))
-            seen_c = set()
-            for f in mine:
-                wid = "corpus:" + f["file"] + ":" + f["kind"] + ":" + hashlib.sha256(f["detail"].encode()).hexdigest()[:8]
-                if wid in seen_c: continue
-                seen_c.add(wid)
-                kf = next((k for k in known if k["prop"] == prop and k["label"] == "bounded:" + wid), None)
-                if kf:
-                    print(f"KNOWN-FINDING: property={prop} bounded {wid} — {kf['text']}")
-                    known_bounded.append(kf)
-                    continue
-                wsc = dict(kind="corpusfile", file=(None if f["kind"] == "timeout" else f["file"]), opts=f["opts"], column_width=f["column_width"], fkind=f["kind"])
-                violations.append(dict(unit="cli", fs="-", label="bounded:" + wid, text="bounded corpus sweep (stand-in for formatters outside every contract)",
-                                       diag=dict(message=f["detail"], fn="stylua_lib::format_code", rendered=json.dumps(f)[:3000]), res=None, scenario=wsc, scenario_result=f))
-        # C09 range sweep: every statement of the repository's test inputs as the formatting range
-        for cs in range_specs:
-            try:
-                fails, stats = replay.run_corpus_range(registry.RANGE_CONFIGS_THOROUGH if tier == "thorough" else registry.RANGE_CONFIGS_QUICK, thorough=(tier == "thorough"))
-            except Exception as e:
-                print(f"UNDECIDED property={prop}: range sweep did not run: {e}")
-                return 2
-            mine = [f for f in fails if f["kind"] in cs["kinds"]]
-            bounded_runs.append(dict(scenario=f"range sweep: every statement ({'nested ones included' if tier == 'thorough' else 'top-level, nested ones in files up to 6000 bytes'}) of {stats['files']} test inputs as the formatting range x {stats['configs']} configurations = {stats['runs']} runs; "
-                                              "the text in front of the statement's leading trivia and behind its last line is reproduced, blank lines in front of it are kept (capped at one)",
-                                     violated=bool(mine), detail=f"{len(mine)} failing runs"))
-            seen_c = set()
-            for f in mine:
-                wid = "range:" + f["file"] + ":" + str(f["range"][0]) + "-" + str(f["range"][1]) + ":" + f["kind"]
-                if wid in seen_c: continue
-                seen_c.add(wid)
-                kf = next((k for k in known if k["prop"] == prop and k["label"] == "bounded:" + wid), None)
-                if kf:
-                    print(f"KNOWN-FINDING: property={prop} bounded {wid} — {kf['text']}")
-                    known_bounded.append(kf); continue
-                if len(seen_c) > 8: continue      # one replay file per distinct statement, at most eight
-                wsc = dict(kind="rangefile", file=f["file"], opts=f["opts"], range=f["range"])
-                violations.append(dict(unit="cli", fs="-", label="bounded:" + wid, text="bounded range sweep (stand-in: in-range / out-of-range behaviour of the statement formatters outside every contract)",
-                                       diag=dict(message=f["detail"], fn="stylua_lib::format_code", rendered=json.dumps(f)[:3000]), res=None, scenario=wsc, scenario_result=f))
-        # C08 ignore sweep: a directive above every statement, a region around every pair of neighbouring top-level statements
-        for cs in ignore_specs:
-            try:
-                fails, stats = replay.run_corpus_ignore(registry.IGNORE_CONFIGS, thorough=(tier == "thorough"))
-            except Exception as e:
-                print(f"UNDECIDED property={prop}: ignore sweep did not run: {e}")
-                return 2
-            mine = [f for f in fails if f["kind"] in cs["kinds"]]
-            bounded_runs.append(dict(scenario=f"ignore sweep: `-- stylua: ignore` above every statement and an ignore start/end region around every pair of neighbouring top-level statements of {stats['files']} test inputs x {stats['configs']} configurations = {stats['runs']} runs; the ignored source text appears verbatim in the output",
-                                     violated=bool(mine), detail=f"{len(mine)} failing runs"))
-            seen_c = set()
-            for f in mine:
-                wid = "ignore:" + f["file"] + ":" + f["case"] + ":" + f["kind"]
-                if wid in seen_c: continue
-                seen_c.add(wid)
-                kf = next((k for k in known if k["prop"] == prop and k["label"] == "bounded:" + wid), None)
-                if kf:
-                    print(f"KNOWN-FINDING: property={prop} bounded {wid} — {kf['text']}")
-                    known_bounded.append(kf); continue
-                if len(seen_c) > 8: continue
-                wsc = dict(kind="ignorefile", file=f["file"], opts=f["opts"], case=f["case"])
-                violations.append(dict(unit="cli", fs="-", label="bounded:" + wid, text="bounded ignore sweep (stand-in: statement formatters outside every contract must leave an ignored statement alone)",
-                                       diag=dict(message=f["detail"], fn="stylua_lib::format_code", rendered=json.dumps(f)[:3000]), res=None, scenario=wsc, scenario_result=f))
-        # comment-injection sweep (vx/inject.py): one comment at every token boundary of a fixed list of small programs
-        for cs in inject_specs:
-            import inject
-            try:
-                fails, stats = inject.run(*((inject.CONFIGS_THOROUGH, inject.WIDTHS_THOROUGH) if tier == "thorough" else (None, None)))
-            except Exception as e:
-                print(f"UNDECIDED property={prop}: comment-injection sweep did not run: {e}")
-                return 2
-            kinj = inject.load_known()
-            mine = [f for f in fails if f["kind"] in cs["kinds"]]
-            nk = 0
-            for f in mine:
-                wid = "inject:" + f["key"]
-                if f["key"] in kinj:
-                    nk += 1
-                    print(f"KNOWN-FINDING: property={prop} injected comment {f['key']} ({f['kind']}): {json.dumps(f['src'])} — {kinj[f['key']][1][:160]}")
-                    known_bounded.append(dict(prop=prop, label="bounded:" + wid, fn="*", text=kinj[f["key"]][1][:200]))
-                    continue
-                oracle = {"parse": "parse", "tree": "tree", "comments": "comments", "literals": "literals"}.get(f["kind"], "parse")
-                wsc = dict(src=f["src"], oracle=oracle, opts=dict(f["opts"], syntax=f["syntax"], column_width=str(f["column_width"])))
-                violations.append(dict(unit="cli", fs="-", label="bounded:" + wid, text="bounded comment-injection sweep (stand-in for formatters outside every contract)",
-                                       diag=dict(message=f["detail"], fn="stylua_lib::format_code", rendered=json.dumps(f)[:3000]), res=None, scenario=wsc, scenario_result=f))
-            bounded_runs.append(dict(scenario=f"comment-injection sweep: {stats['inputs']} inputs (one comment at every token boundary of {len(inject.SNIPPETS)} small programs, 3 comment forms) x {stats['configs']} configurations x column widths {stats['widths']} = {stats['runs']} runs; oracles {cs['kinds']}",
-                                     violated=len(mine) > nk, detail=f"{len(mine)} failing (input, oracle) pairs, {nk} of them listed in known_injections.txt"))
-        for wsc in bl:
-            try:
-                v, j = replay.run_witness(wsc)
-            except Exception as e:
-                v, j = False, dict(error=str(e))
-            wid = wsc.get("scenario") or ("lib:" + hashlib.sha256(json.dumps(wsc, sort_keys=True).encode()).hexdigest()[:10])
-            det = j.get("detail") or j.get("error") or ""
-            if not det and j.get("runs"): det = j["runs"][-1].get("detail", "")
-            bounded_runs.append(dict(scenario=wsc.get("scenario") or ("library witness " + wid + ": " + (wsc.get("src") or "")[:60]), violated=v, detail=det))
-            if v:
-                kf = next((k for k in known if k["prop"] == prop and k["label"] == "bounded:" + wid), None)
-                if kf:
-                    print(f"KNOWN-FINDING: property={prop} bounded witness {wid} — {kf['text']}")
-                    known_bounded.append(kf)
-                    continue
-                violations.append(dict(unit="cli", fs="-", label="bounded:" + wid, text="bounded CLI scenario (stand-in for clauses outside every contract)",
-                                       diag=dict(message=j.get("detail"), fn="stylua (binary)", rendered=json.dumps(j)[:3000]), res=None, scenario=wsc, scenario_result=j))
-    spec["_bounded_runs"] = bounded_runs
+    rcb, bounded_runs, known_bounded = run_bounded(violations, known)
+    if rcb is not None:
+        return rcb
 
     rc = 0
     vcount = 0
